@@ -9,12 +9,15 @@ FAIL = 'assertion_failure'           # pfh fail
 EXC = 'exception'                    # arbitrary exception
 SYNTAX = 'act_parse_exception'       # ParseException from the actor
 UNDEF = 'undefined_symbol'           # symbol_usages() returns a reference to an undefined symbol
+UNDEF_IN_DEF = 'definition_referring_to_undefined_symbol'   # ... a definition whose value refers to an undefined symbol
+DUP_DEF = 'symbol_defined_twice'     # ... two definitions of one name
+WRONG_TYPE = 'reference_violating_type_restriction'  # ... a definition of a string + a reference demanding a path
 
 # step -> kinds the step's return type admits
 STEP_KINDS = {
     ('conf', 'main'): (VALIDATION, HARD_RET, HARD_RAISE, EXC),
     ('act', 'parse'): (SYNTAX, EXC),
-    ('*', 'symbols'): (UNDEF, EXC),
+    ('*', 'symbols'): (UNDEF, UNDEF_IN_DEF, DUP_DEF, WRONG_TYPE, EXC),
     ('*', 'pre_sds'): (VALIDATION, HARD_RET, HARD_RAISE, EXC),
     ('*', 'post_setup'): (VALIDATION, HARD_RET, HARD_RAISE, EXC),
     ('setup', 'main'): (HARD_RET, HARD_RAISE, EXC),
@@ -30,6 +33,9 @@ STEP_KINDS = {
 EXPECTED_STATUS = {
     VALIDATION: 'VALIDATION_ERROR',
     UNDEF: 'VALIDATION_ERROR',
+    UNDEF_IN_DEF: 'VALIDATION_ERROR',
+    DUP_DEF: 'VALIDATION_ERROR',
+    WRONG_TYPE: 'VALIDATION_ERROR',
     HARD_RET: 'HARD_ERROR',
     HARD_RAISE: 'HARD_ERROR',
     FAIL: 'FAIL',
